@@ -4,12 +4,14 @@
 //!        vcheck <Cxx> --replay <file>
 
 pub mod bddmodel;
+pub mod calls;
 pub mod engine;
 pub mod formula;
 pub mod gen;
 pub mod known;
 pub mod oracle;
 pub mod props;
+pub mod refparse;
 pub mod sut;
 
 use engine::*;
